@@ -595,11 +595,35 @@ impl<E: Elem> TableDrv<E> {
                 addrs.len() as u64 * 0 + with_id.len() as u64
             }
             13 => {
-                let sub = rng.below(3);
+                let sub = rng.below(4);
                 oplog!(ctx, "iterate sub{}", sub);
                 let len = self.t.len();
                 let mut n = 0;
+                let mut acc = 0u64;
                 match sub {
+                    3 => {
+                        // the provided Iterator methods, held to their definitions over next()
+                        let k = rng.usize_below(len + 2);
+                        let st = 1 + rng.usize_below(4);
+                        let hit = self.t.iter().nth(k).map(|e| {
+                            e.check();
+                            (e.id(), e.gen())
+                        });
+                        crate::check!(hit.is_some() == (k < len), "table iter().nth({}) is_some = {} with len() {}", k, hit.is_some(), len);
+                        if let Some(e) = hit {
+                            crate::check!(self.model.contains(&e), "table iter().nth({}) yielded {:?} which the model does not hold", k, e);
+                        }
+                        let a = self.t.iter().skip(k).count();
+                        crate::check!(a == len.saturating_sub(k), "table iter().skip({}).count() = {} with len() {}", k, a, len);
+                        let b = self.t.iter_mut().step_by(st).count();
+                        crate::check!(b == (len + st - 1) / st, "table iter_mut().step_by({}).count() = {} with len() {}", st, b, len);
+                        let m1 = self.t.iter_mut().nth(k).is_some();
+                        crate::check!(m1 == (k < len), "table iter_mut().nth({}) is_some = {} with len() {}", k, m1, len);
+                        let l = self.t.iter().last().is_some();
+                        crate::check!(l == (len > 0), "table iter().last() is_some = {} with len() {}", l, len);
+                        acc = hit.is_some() as u64 ^ ((a as u64) << 8) ^ ((b as u64) << 24);
+                        n = len;
+                    }
                     0 => {
                         for e in self.t.iter() {
                             e.check();
@@ -620,7 +644,7 @@ impl<E: Elem> TableDrv<E> {
                     }
                 }
                 crate::check!(n == len, "table iteration yielded {} of {}", n, len);
-                0
+                acc
             }
             14 => {
                 oplog!(ctx, "clone (swap in)");
